@@ -363,36 +363,47 @@ def corpus_items():
     return out
 
 
+FLOORS = ("target:has_user", "target:has_dependency", "target:shares_dependency")
+
+
 def run(ctx):
+    """The ordinary quick portion first (corpus, a slice of the exhaustive family, the generated stream with its floors);
+    the enlarged budget (thorough tier, or a quick run escalated because the mirrored source changed) after it — see c13.run."""
+    big = ctx.tier == "thorough" or ctx.escalated
     cg = corpus_items()
     ctx.hist("corpus", len(cg))
     if cg:
         evaluate(ctx, cg, all_cases=True)
     # exhaustive small family (C13's, two candidate lines per table: 256 graphs), every target and flag combination
     total = c13.enum_count(2)
-    if ctx.tier == "thorough" or ctx.escalated:
-        ids = list(range(total))
-        ctx.note("exhaustive family: all %d graphs x every target x recursive x check x force" % total)
-    else:
-        ids = [(ctx.seed * 97 + k * 37) % total for k in range(6)]
-    for at in range(0, len(ids), 32):
-        if ctx.out_of_time():
-            break
-        evaluate(ctx, [c13.enum_graph(i, 2) for i in ids[at:at + 32]], all_cases=True)
-    n = ctx.n(45, 5000)
+    ids = [(ctx.seed * 97 + k * 37) % total for k in range(6)]
+    evaluate(ctx, [c13.enum_graph(i, 2) for i in ids], all_cases=True)
+    n = 45
     done = 0
-    soft = (lambda: time.time() - ctx.t0 > 110) if ctx.tier != "thorough" and not ctx.escalated else (lambda: False)
+    soft = (lambda: time.time() - ctx.t0 > 110) if not big else (lambda: False)
     while done < n and not ctx.out_of_time() and not soft():       # a loaded machine: fewer cases rather than a late verdict
-        k = min(15 if ctx.tier != "thorough" else 40, n - done)
+        k = min(15, n - done)
         evaluate(ctx, [gen_graph(ctx.rng, wide=ctx.tier == "thorough") for _ in range(k)])
         done += k
     if ctx.evaluations and ctx.distinct_nontrivial < ctx.evaluations * 0.3:
         raise common.InfraError("degenerate distribution: %d non-trivial of %d" % (ctx.distinct_nontrivial, ctx.evaluations))
     h = ctx.histogram
-    if not ctx.escalated and done >= 30:
-        for need in ("target:has_user", "target:has_dependency", "target:shares_dependency"):
+    if done >= 30:
+        for need in FLOORS:
             if not h.get(need):
                 raise common.InfraError("degenerate distribution: no case with %s" % need)
+    if not big:
+        return
+    ctx.note("exhaustive family: all %d graphs x every target x recursive x check x force, interleaved with the generated stream" % total)
+    rest = [i for i in range(total) if i not in set(ids)]
+    at, more = 0, 0
+    while (at < len(rest) or more < 4955) and not ctx.out_of_time():
+        if more < 4955:
+            evaluate(ctx, [gen_graph(ctx.rng, wide=ctx.tier == "thorough") for _ in range(40)])
+            more += 40
+        if at < len(rest) and not ctx.out_of_time():
+            evaluate(ctx, [c13.enum_graph(i, 2) for i in rest[at:at + 16]], all_cases=True)
+            at += 16
 
 
 def replay(ctx, rp):
